@@ -327,3 +327,5 @@ func classify(r *runResult, known []KnownFinding) {
 		}
 	}
 }
+
+type ssaFunction = ssa.Function
